@@ -35,11 +35,181 @@ def setup():
     return 2 if bad else 0
 
 
+WORLD_SPECS = (("tasks", "MCSched", ("id", "policy", "tasks", "supply")), ("cbs", "MCRos2Exec", ("id", "supply", "cbs")),
+               ("gens", "MCArrivalProc", ("id", "gens", "eta")), ("sbf", "MCReservation", ("id", "Q", "D", "P", "sbf")))
+
+
 def replay(path):
+    """Re-evaluates the failing records of a replay file with TLC: independent records through TraceLib (prints the
+    failed named checks), world-model records through their world model (prints TLC's counterexample schedule)."""
     with open(path) as f:
         rp = json.load(f)
-    print(json.dumps(rp, indent=1)[:20000])
+    wd = os.path.join(vflib.WORK, "replay")
+    import shutil
+    shutil.rmtree(wd, ignore_errors=True)
+    os.makedirs(wd)
+    print("replay of %s: property %s, tier %s, seed %s, %d failure(s) recorded" % (
+        path, rp["property"], rp["tier"], rp["seed"], rp["n_failures"]))
+    indep = [f for f in rp["failures"] if isinstance(f.get("record"), dict) and "in" in f["record"] and "out" in f["record"]
+             and f["record"].get("op") != "total"]
+    if indep:
+        tr = os.path.join(wd, "trace.ndjson")
+        seen = []
+        with open(tr, "w") as f:
+            for fl in indep:
+                if fl["record"] not in seen:
+                    seen.append(fl["record"])
+                    f.write(json.dumps(fl["record"]) + "\n")
+        res = vflib.tlc_trace(os.path.join(vflib.SPEC, "trace"), "TraceLib.tla", "TraceLib.cfg", tr, wd)
+        for gl, op, checks in res["rejects"]:
+            print("  record %d (op %s) is rejected by TraceLib: failed checks %s" % (gl, op, checks))
+            print("    input: " + vflib.canon(vflib.shorten(seen[gl - 1].get("in"), 1500)))
+            print("    recorded outcome: " + vflib.canon(vflib.shorten(seen[gl - 1].get("out"), 600)))
+        print("  %d of %d records rejected again" % (len(res["rejects"]), len(seen)))
+    for fl in rp["failures"]:
+        rec = fl.get("record")
+        if not isinstance(rec, dict):
+            continue
+        for key, spec, slim in WORLD_SPECS:
+            if key in rec and "in" not in rec:
+                sl = {k: rec[k] for k in slim if k in rec}
+                if isinstance(sl.get("supply"), dict) and sl["supply"].get("k") == "periodic":
+                    sl["supply"] = dict(sl["supply"], D=sl["supply"]["P"])
+                b = os.path.join(wd, "one.ndjson")
+                with open(b, "w") as f:
+                    f.write(json.dumps(sl) + "\n")
+                cfgs = spec + ("Witness.cfg" if fl.get("check") == "Attained" and spec == "MCSched" else ".cfg")
+                rc, out = vflib.tlc_mc(os.path.join(vflib.SPEC, "mc"), spec + ".tla", cfgs, wd, "replay",
+                                       env_extra={"BATCH": b, "TRACKFIN": "1"}, timeout=900)
+                v = vflib.parse_violation(out)
+                print("  system %s (%s, check %s):" % (rec.get("id"), spec, fl.get("check")))
+                if v:
+                    print("    invariant %s violated; counterexample:\n%s" % (v[0], v[2]))
+                else:
+                    wit = [ln for ln in out.splitlines() if "WITNESS" in ln]
+                    print("    no invariant violated on re-exploration; witnesses reached: %s" % sorted(set(wit))[:20])
+                break
+    other = [f for f in rp["failures"] if f not in indep and not any(k in (f.get("record") or {}) for k, _, _ in WORLD_SPECS)]
+    for fl in other[:10]:
+        print("  stage %s op %s check %s: %s" % (fl.get("stage"), fl.get("op"), fl.get("check"),
+                                              vflib.canon(vflib.shorten(fl.get("record"), 1500))))
     return 0
+
+
+def _corrupt(e):
+    """family-specific corruption of ONE recorded field; returns the corrupted event or None if not applicable"""
+    import copy
+    c = copy.deepcopy(e)
+    op, o = c.get("op"), c.get("out", {})
+    if op in ("rta", "search") or (op or "").startswith("ros2_"):
+        if "ok" in o:
+            o["ok"] = o["ok"] + 1
+        elif "err" in o:
+            c["out"] = {"ok": c["in"]["lim"]}
+        else:
+            return None
+    elif op == "eta" and "eta" in o and len(o["eta"]) > 3 and o["eta"][-1] > 0:
+        o["eta"][-1] -= 1
+    elif op == "steps" and len(o.get("items", [])) > 2:
+        del o["items"][1]
+    elif op == "sbf" and "sbf" in o:
+        o["sbf"][-1] += 1
+    elif op == "cost" and len(o.get("cost", [])) > 2:
+        o["cost"][2] += 1
+    elif op == "demand" and "sn" in o and o["sn"][-1] > 0:
+        o["sn"][-1] -= 1
+    elif op == "curve_trace" and "eta" in o and len(o["eta"]) > 2:
+        o["eta"][1] = 0
+    elif op == "derive" and "der" in o and o["der"][-1] > 0:
+        o["der"][-1] = 0
+    elif op == "curve_ext" and "ext" in o and len(o["ext"]) > 2:
+        o["ext"][1] += 1
+    elif op == "agree" and "rs" in o and "ok" in o["rs"][0]:
+        o["rs"][0]["ok"] += 1
+    elif op == "poisson" and len(o.get("n", [])) > 1:
+        o["n"][-1] += 40
+    else:
+        return None
+    return c
+
+
+def selftest(args):
+    """Binding demonstration (not a registered check): corrupt one recorded field in every k-th event of each family and
+    require TLC to reject exactly those lines; lower / raise one claimed bound of a world-model batch and require a
+    Safe violation / a missing witness."""
+    import random
+    wd = os.path.join(vflib.WORK, "selftest")
+    import shutil
+    shutil.rmtree(wd, ignore_errors=True)
+    os.makedirs(wd)
+    rnd = random.Random(1)
+    ok = True
+    for drv in ["supply", "eta", "steps", "cost", "demand", "search", "rta", "ros2", "c12", "c13", "agree", "poisson"]:
+        tr = os.path.join(wd, drv + ".ndjson")
+        vflib.run_driver(drv, tr, "quick", 1)
+        evs = vflib.read_events(tr)
+        rnd.shuffle(evs)
+        evs = evs[:240]
+        sub = os.path.join(wd, drv)
+        os.makedirs(sub)
+        base = vflib.tlc_trace(os.path.join(vflib.SPEC, "trace"), "TraceLib.tla", "TraceLib.cfg", _write(sub, "base.ndjson", evs), sub)
+        base_rej = {gl for gl, _, _ in base["rejects"]}
+        corrupted, idx = [], set()
+        for i, e in enumerate(evs):
+            c = _corrupt(e) if i % 6 == 0 and (i + 1) not in base_rej else None
+            if c is not None:
+                idx.add(i + 1)
+                corrupted.append(c)
+            else:
+                corrupted.append(e)
+        res = vflib.tlc_trace(os.path.join(vflib.SPEC, "trace"), "TraceLib.tla", "TraceLib.cfg", _write(sub, "corrupt.ndjson", corrupted), sub)
+        rej = {gl for gl, _, _ in res["rejects"]}
+        missed = idx - rej
+        spurious = rej - idx - base_rej
+        log("selftest %-8s: %3d events, %2d corrupted, %2d of them rejected, %d missed, %d spurious" % (
+            drv, len(evs), len(idx), len(idx & rej), len(missed), len(spurious)))
+        if missed or spurious or not idx:
+            ok = False
+            for m in sorted(missed)[:3]:
+                log("   not rejected: " + vflib.canon(vflib.shorten(corrupted[m - 1], 500)))
+    # world models: a claim lowered by one must be refuted (Safe), a claim raised by one must lose its witness (C18)
+    for fam, spec, cfgf, slim, key, extra in (("systems", "MCSched.tla", "MCSched.cfg", ("id", "policy", "tasks", "supply"), "tasks",
+                                               ["--families", "fp,fifo", "--exact", "1", "--nsys", "30", "--no-core", "1"]),
+                                              ("ros2sys", "MCRos2Exec.tla", "MCRos2Exec.cfg", ("id", "supply", "cbs"), "cbs",
+                                               ["--family", "ecrts19", "--nsys", "150"])):
+        b = os.path.join(wd, fam + ".ndjson")
+        vflib.run_driver(fam, b, "quick", 1, extra=extra)
+        recs = [r for r in vflib.read_events(b) if r.get("nontrivial")][:12]
+        caught = 0
+        for r in recs:
+            r2 = json.loads(json.dumps({k: r[k] for k in slim}))
+            if isinstance(r2.get("supply"), dict) and r2["supply"].get("k") == "periodic":
+                r2["supply"]["D"] = r2["supply"]["P"]
+            cands = [t for t in r2[key] if t["R"] > t["C"]]
+            t = cands[0]
+            same = [x for x in r2[key] if x["R"] == t["R"]] if fam == "ros2sys" or r2.get("policy") == "fifo" else [t]
+            for x in same:
+                x["R"] -= 1
+            one = _write(wd, "one.ndjson", [r2])
+            rc, out = vflib.tlc_mc(os.path.join(vflib.SPEC, "mc"), spec, cfgf, wd, "selftest", env_extra={"BATCH": one, "TRACKFIN": "0"}, timeout=600)
+            if vflib.parse_violation(out):
+                caught += 1
+        log("selftest %-8s: %d of %d bounds lowered by one are refuted by the world model" % (fam, caught, len(recs)))
+        if fam == "systems":
+            if caught < len(recs):
+                ok = False      # these bounds are tight (C18), so every one of them must be refuted
+        elif caught == 0:
+            ok = False
+    log("selftest " + ("passed" if ok else "FAILED"))
+    return 0 if ok else 1
+
+
+def _write(d, name, evs):
+    p = os.path.join(d, name)
+    with open(p, "w") as f:
+        for e in evs:
+            f.write(json.dumps(e) + "\n")
+    return p
 
 
 # ---------------------------------------------------------------------------
